@@ -35,7 +35,7 @@ import (
 
 // Queue is the recording workqueue of one controller.
 type Queue struct {
-	Immediate []reconcile.Request          // in arrival order, no duplicates
+	Immediate []reconcile.Request         // in arrival order, no duplicates
 	Delayed   map[reconcile.Request]int64 // key -> due (virtual unix seconds)
 	now       func() int64
 }
@@ -128,14 +128,14 @@ func (a rlq) Len() int             { return len(a.q.Immediate) }
 func (a rlq) Get() (interface{}, bool) {
 	panic("verif: Get on recording queue")
 }
-func (a rlq) Done(item interface{})                          {}
-func (a rlq) ShutDown()                                      {}
-func (a rlq) ShutDownWithDrain()                             {}
-func (a rlq) ShuttingDown() bool                             { return false }
-func (a rlq) AddAfter(item interface{}, d time.Duration)     { a.q.addAfter(item.(reconcile.Request), d) }
-func (a rlq) AddRateLimited(item interface{})                { a.q.addAfter(item.(reconcile.Request), time.Second) }
-func (a rlq) Forget(item interface{})                        {}
-func (a rlq) NumRequeues(item interface{}) int               { return 0 }
+func (a rlq) Done(item interface{})                      {}
+func (a rlq) ShutDown()                                  {}
+func (a rlq) ShutDownWithDrain()                         {}
+func (a rlq) ShuttingDown() bool                         { return false }
+func (a rlq) AddAfter(item interface{}, d time.Duration) { a.q.addAfter(item.(reconcile.Request), d) }
+func (a rlq) AddRateLimited(item interface{})            { a.q.addAfter(item.(reconcile.Request), time.Second) }
+func (a rlq) Forget(item interface{})                    {}
+func (a rlq) NumRequeues(item interface{}) int           { return 0 }
 
 // ---------------------------------------------------------------------------------------------
 // Recording controller + fake manager: the repository's own setup code runs against these.
@@ -259,23 +259,23 @@ type fakeManager struct {
 
 var _ manager.Manager = &fakeManager{}
 
-func (m *fakeManager) SetFields(interface{}) error                 { return nil }
-func (m *fakeManager) GetConfig() *rest.Config                     { return &rest.Config{} }
-func (m *fakeManager) GetScheme() *runtime.Scheme                  { return m.scheme }
-func (m *fakeManager) GetClient() client.Client                    { return m.client }
-func (m *fakeManager) GetFieldIndexer() client.FieldIndexer        { return m.cache }
-func (m *fakeManager) GetCache() cache.Cache                       { return m.cache }
-func (m *fakeManager) GetEventRecorderFor(string) record.EventRecorder { return m.recorder }
-func (m *fakeManager) GetRESTMapper() meta.RESTMapper              { return restMapperFor(m.scheme) }
-func (m *fakeManager) GetAPIReader() client.Reader                 { return m.cache }
-func (m *fakeManager) Start(ctx context.Context) error             { return nil }
-func (m *fakeManager) Add(manager.Runnable) error                  { return nil }
-func (m *fakeManager) Elected() <-chan struct{}                    { ch := make(chan struct{}); close(ch); return ch }
+func (m *fakeManager) SetFields(interface{}) error                       { return nil }
+func (m *fakeManager) GetConfig() *rest.Config                           { return &rest.Config{} }
+func (m *fakeManager) GetScheme() *runtime.Scheme                        { return m.scheme }
+func (m *fakeManager) GetClient() client.Client                          { return m.client }
+func (m *fakeManager) GetFieldIndexer() client.FieldIndexer              { return m.cache }
+func (m *fakeManager) GetCache() cache.Cache                             { return m.cache }
+func (m *fakeManager) GetEventRecorderFor(string) record.EventRecorder   { return m.recorder }
+func (m *fakeManager) GetRESTMapper() meta.RESTMapper                    { return restMapperFor(m.scheme) }
+func (m *fakeManager) GetAPIReader() client.Reader                       { return m.cache }
+func (m *fakeManager) Start(ctx context.Context) error                   { return nil }
+func (m *fakeManager) Add(manager.Runnable) error                        { return nil }
+func (m *fakeManager) Elected() <-chan struct{}                          { ch := make(chan struct{}); close(ch); return ch }
 func (m *fakeManager) AddMetricsExtraHandler(string, http.Handler) error { return nil }
-func (m *fakeManager) AddHealthzCheck(string, healthz.Checker) error { return nil }
-func (m *fakeManager) AddReadyzCheck(string, healthz.Checker) error  { return nil }
-func (m *fakeManager) GetWebhookServer() *webhook.Server             { return nil }
-func (m *fakeManager) GetLogger() logr.Logger                        { return logr.Discard() }
+func (m *fakeManager) AddHealthzCheck(string, healthz.Checker) error     { return nil }
+func (m *fakeManager) AddReadyzCheck(string, healthz.Checker) error      { return nil }
+func (m *fakeManager) GetWebhookServer() *webhook.Server                 { return nil }
+func (m *fakeManager) GetLogger() logr.Logger                            { return logr.Discard() }
 func (m *fakeManager) GetControllerOptions() v1alpha1.ControllerConfigurationSpec {
 	return v1alpha1.ControllerConfigurationSpec{}
 }
@@ -291,7 +291,7 @@ func (readerCache) GetInformer(ctx context.Context, obj client.Object) (cache.In
 func (readerCache) GetInformerForKind(ctx context.Context, gvk schema.GroupVersionKind) (cache.Informer, error) {
 	return nil, fmt.Errorf("verif: informers are not modelled")
 }
-func (readerCache) Start(ctx context.Context) error          { return nil }
+func (readerCache) Start(ctx context.Context) error           { return nil }
 func (readerCache) WaitForCacheSync(ctx context.Context) bool { return true }
 func (readerCache) IndexField(ctx context.Context, obj client.Object, field string, extractValue client.IndexerFunc) error {
 	return nil
